@@ -340,9 +340,11 @@ class ProtocolModel:
 
     def run_function(self, fn: FuncInfo, self_val_factory, kwargs_factory, *, cell, faults=False, user_raises=None,
                      extra_hooks=None, ext_method_hooks=None, ext_calls=None, status=ABSENT, optype="STEP",
-                     loop_iters=1, while_iters=2) -> list[Trace]:
+                     loop_iters=1, while_iters=2, cfg_attrs=None) -> list[Trace]:
         """Generic entry: interpret `fn` with driver-built arguments."""
         cfg = self.make_config(faults=faults, user_raises=user_raises or {}, extra_hooks=extra_hooks)
+        for k_, v_ in (cfg_attrs or {}).items():
+            setattr(cfg, k_, v_)
         cfg.ext_method_hooks = ext_method_hooks
         if ext_calls:
             cfg.ext_calls.update(ext_calls)
@@ -540,7 +542,7 @@ def wrapper_traces(pm: ProtocolModel, *, faults: bool = True, event_mode: str = 
 
     def hook_dumps(it, args, kwargs, node):
         n = sum(1 for e in it.events if e.kind == "DUMPS") + 1
-        ev = it.emit("DUMPS", node, src=args[0].key() if args else "?", n=n)
+        ev = it.emit("DUMPS", node, src=args[0].key() if args else "?", n=n, kwargs={k: v.key() for k, v in kwargs.items()})
         # only a user-supplied value can be non-serialisable; SDK-built dicts of strings cannot
         user_value = bool(args) and isinstance(args[0], Sym) and args[0].k.startswith("handler_result")
         opts = ["ok", "builtins.TypeError", "builtins.ValueError"] if user_value else ["ok"]
